@@ -28,7 +28,7 @@ LEVEL = "fault_enumeration"
 RULE = ("for each scenario of the fixed catalogue: one clean run counts the N allocation attempts "
         "(coap_malloc_type + coap_realloc_type, ld --wrap), then N runs fail exactly the k-th "
         "attempt, k = 1..N (also every pair k1 < k2 <= N(k1): quick for the scenarios with N <= 100, "
-        "thorough for all; thorough runs the singles again under ASan); evaluations = runs of a scenario with a fault pattern + PDU-layer tie cases; a run "
+        "thorough for N <= 200; thorough runs the singles again under ASan); evaluations = runs of a scenario with a fault pattern + PDU-layer tie cases; a run "
         "is non-trivial when the fault was actually injected (the k-th attempt was reached) and "
         "the scenario went on to its tear-down; distinct = distinct (variant, scenario, k1, k2)")
 
@@ -103,7 +103,7 @@ class Resolver:
             out.extend(self.cache[a])
         return out
 
-    def chain(self, bt, depth=5):
+    def chain(self, bt, depth=8):
         """function names of the libcoap part of a backtrace, innermost first"""
         names = self.resolve(bt)
         out = []
@@ -669,8 +669,9 @@ def main(run):
     scen = out[0].split()
     stats = {}
     thorough = run.tier == "thorough"
-    # pairs: thorough = every scenario; quick = the scenarios with at most 100 attempts
-    fails = enumerate_variant(run, model, exe, "base", scen, True if thorough else 100, stats)
+    # pairs: thorough = scenarios with at most 200 attempts (all but oscore_b2, 293, whose 40 000
+    # pairs take 6 minutes); quick = the scenarios with at most 100 attempts
+    fails = enumerate_variant(run, model, exe, "base", scen, 200 if thorough else 100, stats)
     def rerun_leak(case, exe=exe, env=None):
         # once more with FA_BT=1: three more frames of the allocating call of every leaked block
         e = dict(env or {})
